@@ -3,6 +3,7 @@ import TFV.Properties.TreeCR
 import TFV.Properties.Runs
 import TFV.Properties.Src.Levels
 import TFV.Properties.Src.Shrink
+import TFV.Properties.Src.StandardX
 #print axioms TFV.Tree.C08_subtree_wf
 #print axioms TFV.Tree.C08_concat_wf
 #print axioms TFV.Tree.C08_depth_concat
@@ -21,3 +22,5 @@ import TFV.Properties.Src.Shrink
 #print axioms TFV.SrcTie.C08_src_get_levels_subterm
 #print axioms TFV.SrcTie.C08_src_shrink_mutation
 #print axioms TFV.SrcTie.C08_src_shrink_closed
+#print axioms TFV.SrcTie.C08_src_standard_crossover
+#print axioms TFV.SrcTie.C08_src_standard_closed
